@@ -153,6 +153,17 @@ fn main() {
             }
         }
         "stack-child" => c18::child_main(&args[2]),
+        "oneworld" => {
+            silence_panics();
+            let v: Value = std::fs::read_to_string(&args[2]).ok().and_then(|t| serde_json::from_str(&t).ok()).unwrap_or(Value::Null);
+            match v["property"].as_str() {
+                Some("C09") => batch::oneworld_main::<c09::C09World>(&v),
+                Some("C12") => batch::oneworld_main::<c12::C12World>(&v),
+                Some("C17") => batch::oneworld_main::<c17::C17World>(&v),
+                Some("C18") => batch::oneworld_main::<c18::C18World>(&v),
+                _ => 2,
+            }
+        }
         "prefix" => {
             silence_panics();
             match args[2].as_str() {
